@@ -236,6 +236,24 @@ def run(check, repo: Repo) -> None:
                      fail_detail=f"the {pname} handed to _recursive_load do not derive from both the `skip` "
                                  f"argument and root.attrs['{key}'] (sources: {sorted(closure_names)}, keys {sorted(closure_consts)})")
 
+    # the merged NAME set is a pure union: nothing narrows the user's names before the recursion (a name that only occurs in nested objects is
+    # absent from the root group — intersecting with the root's keys drops it for every depth)
+    a = bound.get("skip_names")
+    e = a
+    seen_ = 0
+    while isinstance(e, ast.Name) and seen_ < 4:
+        dd = [d for d in definitions(load_fn, e.id) if isinstance(d, ast.AST)]
+        if len(dd) != 1:
+            break
+        e, seen_ = dd[0], seen_ + 1
+    narrowing = [unparse(x)[:60] for x in ast.walk(e) if (isinstance(x, ast.BinOp) and isinstance(x.op, (ast.BitAnd, ast.Sub)))
+                 or (isinstance(x, ast.Call) and isinstance(x.func, ast.Attribute) and x.func.attr in ("intersection", "difference", "intersection_update", "difference_update"))
+                 or (isinstance(x, (ast.SetComp, ast.ListComp, ast.GeneratorExp)) and any(g.ifs for g in x.generators))] if e is not None else []
+    check.decide(e is not None and not narrowing, "C14-R4", "load: the merged skip names are a plain union (no intersection / difference / filter narrows the user's names)",
+                 unparse(e)[:80] if e is not None else "", mod.line(e) if e is not None else mod.line(final[0]),
+                 fail_detail=f"`{unparse(e)[:90] if e is not None else '?'}` narrows the names with {narrowing}: a load-time name that exists only below the root survives in the nested objects — "
+                             f"load-time skipping no longer matches save-time skipping")
+
     # ---- R5: skip metadata must not reach the loaded object ---------------------------------
     _rule_reserved_keys(check, repo, W, R, rule="C14-R5", only=lambda k: k.startswith("_autoserialize_skip"))
 
